@@ -334,10 +334,26 @@ def r3_early_returns(ck, P):
                         noneq.append(br)
                 if eq:
                     missing = {(k, fl) for k, fl in S if (k, fl) not in eq and k in {q for q, _ in S}}
+                    # mode fields the update sets to a constant (have_clip_region = TRUE ...) must already hold it when the update is skipped
+                    for x_, lf_, k_ in ws:
+                        if x_.op == 'store' and x_.a[0][0] == 'c' and lf_ in loaded_anywhere and lf_ not in ('image_common.dirty',):
+                            kval = int(x_.a[0][1]); tested = False
+                            for br, succ in conds:
+                                if br.op != 'br' or not br.a:
+                                    continue
+                                cc, pred, ops = f.cond(br.a[0])
+                                if cc is None:
+                                    continue
+                                for o in ops:
+                                    y_ = f.v(f.strip_casts(o)) if o[0] == 'v' else None
+                                    if y_ is not None and y_.op == 'load' and image_field(P, f, f.path(y_.a[0])) == lf_:
+                                        tested = True
+                            if not tested:
+                                missing.add((-1 - kval, lf_))
                     # only parameters that are stored at all need a comparison; a parameter compared with another field does not count
                     if missing:
                         ck.violation(R, f.name, 'early return on equal ' + ','.join(sorted(fl for _, fl in eq)),
-                                     '%s returns early although %s may differ from the stored value: the change is silently dropped' % (f.name, ', '.join('parameter %s vs %s' % (f.params[k][0], fl) for k, fl in sorted(missing))), b.term.loc())
+                                     '%s returns early although %s may differ from the stored value: the change is silently dropped' % (f.name, ', '.join(('parameter %s vs %s' % (f.params[k][0], fl)) if k >= 0 else ('%s (set to %d by the update, not tested here)' % (fl, -1 - k)) for k, fl in sorted(missing))), b.term.loc())
                     else:
                         ck.ok(R, '%s: unchanged-value return compares %s' % (f.name, sorted(fl for _, fl in eq)))
                 else:
@@ -368,10 +384,11 @@ def _only_null_tests(f, conds, k):
 
 def _equality_pair(P, f, c, taken_true):
     """(param idx, field) if the branch asserts param == field on the taken side"""
-    if c is None:
+    if c is None or c.op != 'icmp' or c.pred not in ('eq', 'ne'):
         return None
-    if c.op == 'icmp' and c.pred in ('eq', 'ne') and (c.pred == 'eq') == taken_true:
-        sides = [f.strip_casts(o) for o in c.a]
+    sides = [f.strip_casts(o) for o in c.a]
+    if (c.pred == 'eq') == taken_true:
+        # param == load field
         for i in (0, 1):
             if sides[i][0] == 'a':
                 y = f.v(sides[1 - i])
@@ -391,6 +408,17 @@ def _equality_pair(P, f, c, taken_true):
                             lf = image_field(P, f, f.path(z.a[0]))
                             if lf:
                                 return (ptrs[j][1], lf)
+    if (c.pred == 'ne') == taken_true:
+        # region_equal (&field, param) != 0
+        for i in (0, 1):
+            y = f.v(sides[i])
+            if y is not None and y.op == 'call' and isinstance(y.callee, str) and y.callee.endswith('_equal') and 'region' in y.callee and sides[1 - i][0] == 'c' and int(sides[1 - i][1]) == 0:
+                ptrs = [f.strip_casts(a) for a in y.a[:2]]
+                for j in (0, 1):
+                    if ptrs[j][0] == 'a':
+                        lf = image_field(P, f, f.path(ptrs[1 - j]))
+                        if lf:
+                            return (ptrs[j][1], lf)
     return None
 
 
